@@ -28,6 +28,13 @@ struct FsSpec {
     editorconfig: bool,
     /// pass the directory instead of the individual files
     pass_dir: bool,
+    /// index of a file that has a second hard link (`hl_<i>.bak`, not a formatting target): a
+    /// tool that special-cases `nlink > 1` takes another write path for it
+    #[serde(default)]
+    hardlink: Option<usize>,
+    /// index of a file that is named twice on the command line
+    #[serde(default)]
+    dup_arg: Option<usize>,
 }
 
 fn file_text(kind: &str, n: u32) -> String {
@@ -104,6 +111,11 @@ fn restore(ws: &Path, spec: &FsSpec) {
     if let Some(i) = spec.symlink {
         let _ = std::os::unix::fs::symlink(ws.join(&spec.files[i].rel), ws.join("zz_link.lua"));
     }
+    if let Some(i) = spec.hardlink {
+        if i < spec.files.len() {
+            let _ = std::fs::hard_link(ws.join(&spec.files[i].rel), ws.join(format!("hl_{i}.bak")));
+        }
+    }
 }
 
 fn cmd_args(spec: &FsSpec) -> Vec<String> {
@@ -113,6 +125,11 @@ fn cmd_args(spec: &FsSpec) -> Vec<String> {
     let mut v: Vec<String> = spec.files.iter().map(|f| f.rel.clone()).collect();
     if spec.symlink.is_some() {
         v.push("zz_link.lua".into());
+    }
+    if let Some(i) = spec.dup_arg {
+        if i < spec.files.len() {
+            v.push(spec.files[i].rel.clone());
+        }
     }
     v
 }
@@ -150,7 +167,11 @@ fn gen_spec(seed: u64) -> FsSpec {
         files.push(FileSpec { rel, kind: kind.to_string(), n: i as u32 });
     }
     let symlink = if r.chance(1, 6) { Some(r.usize_below(n)) } else { None };
-    FsSpec { seed, files, symlink, editorconfig: r.chance(1, 3), pass_dir: r.chance(1, 3) }
+    let editorconfig = r.chance(1, 3);
+    let pass_dir = r.chance(1, 3);
+    let hardlink = if r.chance(1, 4) { Some(r.usize_below(n)) } else { None };
+    let dup_arg = if r.chance(1, 8) { Some(r.usize_below(n)) } else { None };
+    FsSpec { seed, files, symlink, editorconfig, pass_dir, hardlink, dup_arg }
 }
 
 fn run_case(spec: &FsSpec, verbose: bool) -> CaseReport {
@@ -170,6 +191,12 @@ fn run_case(spec: &FsSpec, verbose: bool) -> CaseReport {
         return CaseReport { error: Some(format!("golden run did not exit normally: {:?}", golden.exit)), ..Default::default() };
     }
     *counters.entry("golden.call_points".into()).or_insert(0) += points.len() as u64;
+    if spec.hardlink.is_some() {
+        *counters.entry("workload.hard_linked_target".into()).or_insert(0) += 1;
+    }
+    if spec.dup_arg.is_some() {
+        *counters.entry("workload.file_named_twice".into()).or_insert(0) += 1;
+    }
     let changed_files = originals.iter().zip(&expected).filter(|(a, b)| a != b).count();
     *counters.entry("golden.files_rewritten".into()).or_insert(0) += changed_files as u64;
 
@@ -267,6 +294,20 @@ fn run_case(spec: &FsSpec, verbose: bool) -> CaseReport {
                 ));
             }
         }
+        // the other name of a hard-linked target holds a complete text as well
+        if let Some(i) = spec.hardlink.filter(|i| *i < spec.files.len()) {
+            let state = match std::fs::read(ws.join(format!("hl_{i}.bak"))) {
+                Err(_) => Some("missing"),
+                Ok(b) if b == originals[i] || b == expected[i] => None,
+                Ok(b) if b.is_empty() => Some("truncated-to-empty"),
+                Ok(b) if expected[i].starts_with(&b) => Some("partial-formatted-prefix"),
+                Ok(b) if originals[i].starts_with(&b) => Some("partial-original-prefix"),
+                Ok(_) => Some("other-content"),
+            };
+            if let Some(state) = state {
+                violations.push((format!("C39:{state}:hard-link-peer:{label}"), format!("second hard link of {} after plan '{plan}': {state}", spec.files[i].rel)));
+            }
+        }
         // a run in which some file could not be written must not report success
         if !out.killed && some_not_written && out.exit == Some(0) && fired {
             violations.push((
@@ -301,7 +342,7 @@ fn run_case(spec: &FsSpec, verbose: bool) -> CaseReport {
         nontrivial: changed_files > 0 && !points.is_empty(),
         final_state: digest.hex(),
         counters,
-        sample: json!({"files": spec.files, "symlink": spec.symlink, "pass_dir": spec.pass_dir, "golden_call_points": points.len(), "fault_plans": plans.len(), "golden_trace": golden.log.iter().take(12).collect::<Vec<_>>()}),
+        sample: json!({"files": spec.files, "symlink": spec.symlink, "hardlink": spec.hardlink, "dup_arg": spec.dup_arg, "pass_dir": spec.pass_dir, "golden_call_points": points.len(), "fault_plans": plans.len(), "golden_trace": golden.log.iter().take(12).collect::<Vec<_>>()}),
         error: None,
     }
 }
@@ -332,8 +373,16 @@ impl Engine for Fs {
                 let mut c = s.clone();
                 c.files.remove(i);
                 c.symlink = None;
+                let remap = |x: Option<usize>| x.and_then(|h| if h == i { None } else if h > i { Some(h - 1) } else { Some(h) });
+                c.hardlink = remap(s.hardlink);
+                c.dup_arg = remap(s.dup_arg);
                 out.push(c);
             }
+        }
+        if s.dup_arg.is_some() {
+            let mut c = s.clone();
+            c.dup_arg = None;
+            out.push(c);
         }
         if s.symlink.is_some() || s.editorconfig || s.pass_dir {
             let mut c = s.clone();
